@@ -162,6 +162,10 @@ def run_batch(flavour, prop, tier, base, count, nworkers, results, crashes, fw_e
             elif now - w.last_output > float(os.environ.get("TBFSIM_HANG_S", "300")):
                 w.p.kill()
                 crashes.append({"seed": st["seed"], "sub": st["sub"] or 0, "stage": st["stage"] or "?", "what": "hang", "flavour": flavour})
+                if sum(1 for c in crashes if c["what"] == "hang") >= 6:
+                    # the code under test hangs on (nearly) every scenario: stop the batch instead of waiting for each one
+                    for o in live: o.p.kill()
+                    return
                 nxt = (st["n"] if st["n"] is not None else count) + w.of
                 live.remove(w)
                 if nxt < count:
@@ -467,7 +471,7 @@ def main():
         n = nseeds if fl == flavours[0] else max(50, nseeds // 16)
         run_batch(fl, prop, tier, base, n, nworkers, results, crashes, fw_errors, deadline)
     vg_runs = 0
-    if prop == "C15" and shutil.which("valgrind"):
+    if prop == "C15" and shutil.which("valgrind") and not os.environ.get("TBFSIM_NO_VALGRIND"):
         if "plain" not in flavours: build(["plain"])
         vg_results = []
         vg_runs = valgrind_batch(prop, tier, base + 7919, 8 if tier == "quick" else 1500, vg_results)
